@@ -17,7 +17,7 @@ open CTV CTV.SigV CTV.SigInput
 /-- outcome of a client call -/
 inductive Res (α : Type)
   | ok (v : α)
-  | rspErr (status : Nat)   -- jsonclient.RspError: carries the status and the body of the response
+  | rspErr (status : Nat) (body : Bytes)   -- jsonclient.RspError{StatusCode, Body}: the status and the raw body of the response
   | err                     -- any other error
   | panic
 deriving Repr, DecidableEq
@@ -29,6 +29,9 @@ def Res.isOk {α : Type} : Res α → Bool
 /-- one response as the client sees it: `body = none` when the JSON decoding into the endpoint's struct fails -/
 structure Rsp (β : Type) where
   status : Nat
+  /-- the body as received (arbitrary octets) -/
+  raw : Bytes
+  /-- what the JSON decoder makes of `raw` for the endpoint's struct (`none`: it does not decode) -/
   body : Option β
 
 /-! ### TLS fragments (hand-written; `tls.Unmarshal` of DigitallySigned, MerkleTreeLeaf, the chain structures) -/
@@ -79,19 +82,19 @@ def toSignedTreeHead (b : SthBody) : Option STH :=
 
 /-- LogClient.GetSTH; `verifier = none`: the client was built without a public key -/
 def getSTH (P : Prims) (verifier : Option Key) (r : Rsp SthBody) : Res STH :=
-  if r.status ≠ 200 then .rspErr r.status
+  if r.status ≠ 200 then .rspErr r.status r.raw
   else match r.body with
-    | none => .rspErr r.status
+    | none => .rspErr r.status r.raw
     | some b =>
       match toSignedTreeHead b with
-      | none => .rspErr r.status
+      | none => .rspErr r.status r.raw
       | some sth =>
-        match verifier with
+        match (if Gen.clientVerifiesBeforeReturn then verifier else none) with
         | none => .ok sth
         | some key =>
           match verifySTH P key sth with
           | .ok => .ok sth
-          | .err => .rspErr r.status
+          | .err => .rspErr r.status r.raw
           | .panic => .panic
 
 /-! ### add-chain / add-pre-chain -/
@@ -104,42 +107,99 @@ structure SctBody where
   extensions : Option Bytes
   signature : Bytes
 
-/-- `ct.MerkleTreeLeafFromRawChain(chain, etype, ts)` as far as the SCT signature input needs it -/
+/-- outcome of `ct.MerkleTreeLeafFromRawChain(chain, etype, ts)` as far as the SCT signature input needs it -/
 inductive LeafBuild
   | ok (e : Entry)
   | err
-  | panic       -- e.g. an empty chain: `chain[0]`
+  | panic       -- an empty chain, before dab2fab: `chain[0]`
 deriving DecidableEq
+
+/-- what the X.509 parser says about one certificate of the submitted chain (C11's subject; inputs of this model) -/
+structure ChainCert where
+  /-- the DER octets as submitted -/
+  raw : Bytes
+  /-- `x509.ParseCertificate` reports a fatal error -/
+  fatal : Bool
+  /-- `RawTBSCertificate` -/
+  tbs : Bytes
+  /-- `RawSubjectPublicKeyInfo` -/
+  spki : Bytes
+  /-- carries the Certificate Transparency EKU (a Precertificate Signing Certificate, RFC 6962 §3.1) -/
+  preIssuer : Bool
+deriving DecidableEq
+
+/-- the two functions the leaf builder relies on: SHA-256 and `x509.BuildPrecertTBS` (C03's subject: the TBSCertificate
+without the poison extension, re-issued under the final issuer when a pre-issuer is given) -/
+structure LeafEnv where
+  hash : Bytes → Bytes
+  buildPrecertTBS : Bytes → Option ChainCert → Option Bytes
+
+/-- `ct.MerkleTreeLeafFromRawChain` + `MerkleTreeLeafFromChain` (serialization.go): at most the first three certificates
+are parsed (a fatal error in any of them is an error); an X.509 entry is the first certificate as submitted; a
+precertificate entry needs the issuer (second certificate, or the third when the second is a pre-issuer) and is
+(SHA-256 of that issuer's SPKI, BuildPrecertTBS of the first certificate's TBS).  The guard against an empty chain is the
+regenerated `Gen.leafFromChainGuardsEmpty`. -/
+def leafFromRawChain (env : LeafEnv) (chain : List ChainCert) (pre : Bool) : LeafBuild :=
+  let used := chain.take 3
+  if !Gen.leafFromChainShape then .err
+  else if used.any (·.fatal) then .err
+  else match used with
+    | [] => if Gen.leafFromChainGuardsEmpty || pre then .err else .panic
+    | c :: rest =>
+      if !pre then .ok (.x509 c.raw)
+      else match rest with
+        | [] => .err                                   -- no issuer cert available
+        | i :: rest' =>
+          if !i.preIssuer then
+            match env.buildPrecertTBS c.tbs none with
+            | some t => .ok (.precert (env.hash i.spki) t)
+            | none => .err
+          else match rest' with
+            | [] => .err                               -- no issuer cert available for pre-issuer
+            | j :: _ =>
+              match env.buildPrecertTBS c.tbs (some i) with
+              | some t => .ok (.precert (env.hash j.spki) t)
+              | none => .err
 
 /-- `copy(logID.KeyID[:], resp.ID)`: the first 32 octets, zero-filled -/
 def copyID (id : Bytes) : Bytes := (id ++ List.replicate 32 0).take 32
 
-/-- the checks `checkLogID` applies, where the code has them (regenerated flags) -/
-def idAccepted (keyID : Option Bytes) (id : Bytes) : Bool :=
-  (!Gen.addChainChecksIDLength || id.length = 32) &&
-  (!Gen.addChainChecksIDAgainstKey || match keyID with | none => true | some k => id = k)
+/-- is the response's `id` accepted?  `hasKey`: a verifier is configured; `keyID`: what `logIDForKey` gives for its key
+(SHA-256 of the SPKI; `none`: the key cannot be marshalled).  By the regenerated `Gen.addChainIDPolicy`:
+0 copied unchecked; 1 `checkLogID` (regenerated flags); 2 with a key, a *present* id must be the key hash. -/
+def idAccepted (hasKey : Bool) (keyID : Option Bytes) (id : Bytes) : Bool :=
+  if Gen.addChainIDPolicy = 2 then
+    (if hasKey then (match keyID with | none => false | some k => id.isEmpty || id = k) else true)
+  else
+    (!Gen.addChainChecksIDLength || id.length = 32) &&
+    (!Gen.addChainChecksIDAgainstKey || match keyID with | none => true | some k => id = k)
+
+/-- the log ID of the SCT handed back: under policy 2 and with a key, the key's own hash; otherwise the response's id,
+cut or zero-filled to 32 octets -/
+def sctLogID (hasKey : Bool) (keyID : Option Bytes) (id : Bytes) : Bytes :=
+  if Gen.addChainIDPolicy = 2 && hasKey then keyID.getD [] else copyID id
 
 /-- the part of addChainWithRetry after a 200 response that decoded as JSON; `keyID` = SHA-256 of the configured key's SPKI -/
-def addChainFinal (P : Prims) (verifier : Option Key) (keyID : Option Bytes) (leaf : LeafBuild) (status : Nat) (b : SctBody) : Res SCT :=
+def addChainFinal (P : Prims) (verifier : Option Key) (keyID : Option Bytes) (leaf : LeafBuild) (status : Nat) (raw : Bytes) (b : SctBody) : Res SCT :=
   match dsExact b.signature with
-  | none => .rspErr status
+  | none => .rspErr status raw
   | some ds =>
     match b.extensions with
-    | none => .rspErr status
+    | none => .rspErr status raw
     | some exts =>
-      if !idAccepted keyID b.id then .rspErr status
+      if !idAccepted verifier.isSome keyID b.id then .rspErr status raw
       else
-        let sct : SCT := ⟨b.version, copyID b.id, b.timestamp, exts, ds⟩
-        match verifier with
+        let sct : SCT := ⟨b.version, sctLogID verifier.isSome keyID b.id, b.timestamp, exts, ds⟩
+        match (if Gen.clientVerifiesBeforeReturn then verifier else none) with
         | none => .ok sct
         | some key =>
           match leaf with
-          | .err => .rspErr status
+          | .err => .rspErr status raw
           | .panic => .panic
           | .ok e =>
             match verifySCT P key sct e with
             | .ok => .ok sct
-            | .err => .rspErr status
+            | .err => .rspErr status raw
             | .panic => .panic
 
 /-- PostAndParseWithRetry sends the request again after these statuses (regenerated set) -/
@@ -154,24 +214,24 @@ def addChain (P : Prims) (verifier : Option Key) (keyID : Option Bytes) (leaf : 
     if r.status = 200 then
       match r.body with
       | none => addChain P verifier keyID leaf rest
-      | some b => addChainFinal P verifier keyID leaf r.status b
+      | some b => addChainFinal P verifier keyID leaf r.status r.raw b
     else if retried r.status then addChain P verifier keyID leaf rest
-    else .rspErr r.status
+    else .rspErr r.status r.raw
 
 /-! ### plain GET methods: get-sth-consistency, get-proof-by-hash, get-entry-and-proof, get-entries (raw), get-roots -/
 
 /-- GetAndParse and nothing else: the decoded struct is handed back as it is -/
 def plainGet {β : Type} (r : Rsp β) : Res β :=
-  if r.status ≠ 200 then .rspErr r.status
+  if r.status ≠ 200 then .rspErr r.status r.raw
   else match r.body with
-    | none => .rspErr r.status
+    | none => .rspErr r.status r.raw
     | some b => .ok b
 
 /-- GetAcceptedRoots: every certificate must be base64 (`none` = it is not) -/
 def getRoots (r : Rsp (List (Option Bytes))) : Res (List Bytes) :=
   match plainGet r with
-  | .ok cs => if cs.all Option.isSome then .ok (cs.filterMap id) else .rspErr r.status
-  | .rspErr s => .rspErr s
+  | .ok cs => if cs.all Option.isSome then .ok (cs.filterMap id) else .rspErr r.status r.raw
+  | .rspErr s b => .rspErr s b
   | .err => .err
   | .panic => .panic
 
@@ -324,8 +384,8 @@ def getEntries (start end_ : Int) (r : Rsp (List EntryIn)) : Res (List RawEntry)
     | .ok es =>
       match decodeAll es with
       | some rs => .ok rs
-      | none => if Gen.getEntriesWrapsDecodeError then .rspErr r.status else .err
-    | .rspErr s => .rspErr s
+      | none => if Gen.getEntriesWrapsDecodeError then .rspErr r.status r.raw else .err
+    | .rspErr s b => .rspErr s b
     | .err => .err
     | .panic => .panic
 
